@@ -249,7 +249,11 @@ class Engine:
                 self.havoc_loc(c, m)
         if k == 0:
             res = ct.result(c, a)
-            c.assume(ct.ensures(c, old, a, res))
+            post = ct.ensures(c, old, a, res)
+            if post is False or (z3.is_expr(post) and z3.is_false(z3.simplify(post))):
+                # a post-condition that is literally false at a call site would silently cut the caller's path (vacuity)
+                raise Undecided(f"contract of {short} yields `false` when used at a call site (line {line})")
+            c.assume(post)
             return res
         cls, when, post = ct.raises[k - 1]
         exc = ExcVal(cls, ())
